@@ -11,3 +11,7 @@ pub use time_types::*;
 
 #[cfg(feature = "std")]
 extern crate std;
+
+#[cfg(feature = "pendulum_project_ntpd_rs_verif")]
+#[path = "/verif/hooks/statime-base/lib.rs"]
+pub mod verif;
